@@ -115,7 +115,17 @@ def r_F11():
     return len(kept[0].spikes) == 1, {'kept': list(kept[0].spikes), 'threshold': thr, 'thr*(N-1)': thr * 22}
 
 
-REPLAY = {('F7', 'C15'): r_F7, ('F8', 'C14'): r_F8, ('F9', 'C02'): r_F9, ('F9', 'C08'): r_F9_C08,
+def r_F14():
+    L = [tr([5.0], 0, 10), tr([4.0, 5.0], 0, 10), tr([5.8], 0, 10)]
+    kept, rem = O.quiet(spk.filter_by_spike_sync, L, 0.6, return_removed_spikes=True)
+    P = O.quiet(spk.spike_sync_profile, L)
+    at5 = [(y, mp) for x, y, mp in zip(P.x, P.y, P.mp) if x == 5.0]
+    frac = at5[0][0] / at5[0][1] if at5 else None
+    still = frac is not None and frac > 0.6 and 5.0 in list(rem[1].spikes)
+    return still, {'profile at t=5': at5, 'removed from train 1': list(rem[1].spikes), 'kept': [list(k.spikes) for k in kept]}
+
+
+REPLAY = {('F14', 'C17'): r_F14, ('F7', 'C15'): r_F7, ('F8', 'C14'): r_F8, ('F9', 'C02'): r_F9, ('F9', 'C08'): r_F9_C08,
           ('F11', 'C17'): r_F11}
 
 
